@@ -147,6 +147,9 @@ def regression_replays(prop):
     return n, bad
 
 
+CROSS_PROPS = ["C01", "C02", "C03", "C04", "C05", "C07", "C08", "C10", "C11", "C12", "C13", "C14", "C15"]
+
+
 def run_property(prop, tier, seed, jobs=None, only=None, budget=None, grid=None, mon=None):
     mod = importlib.import_module(f"props.{prop.lower()}")
     cells = mod.cells(tier)
@@ -155,6 +158,16 @@ def run_property(prop, tier, seed, jobs=None, only=None, budget=None, grid=None,
         other = importlib.import_module(f"props.{grid.lower()}")
         own = mon.split(",") if mon else getattr(mod, "MON", [prop])
         cells = [dict(c, monitors=list(own), name=f"[{grid}] " + c["name"]) for c in other.cells(tier) if c.get("world", "pool") == "pool"]
+    if tier == "thorough" and not grid and prop in CROSS_PROPS and getattr(mod, "CROSS", True):
+        # thorough tier: this property's monitors also run on the quick grids of the other pool properties
+        # (the monitors are sound on any pool scenario; histories designed for one property often break another)
+        own = getattr(mod, "MON", [prop])
+        for other_id in CROSS_PROPS:
+            if other_id == prop:
+                continue
+            other = importlib.import_module(f"props.{other_id.lower()}")
+            cells += [dict(c, monitors=list(own), name=f"[{other_id}] " + c["name"]) for c in other.cells("quick")
+                      if c.get("world", "pool") == "pool"]
     if only:
         cells = [c for c in cells if only in c["name"]]
     budget = budget or getattr(mod, "BUDGET", {}).get(tier, 600 if tier == "quick" else 3600)
